@@ -4,7 +4,7 @@
 (* per behaviour; TraceTwin: two related hands per behaviour).  No         *)
 (* variables here: every operator takes the model state explicitly.        *)
 (***************************************************************************)
-EXTENDS PokerKit, Rules, Json, IOUtils
+EXTENDS PokerKit, Rules, Variants, Json, IOUtils
 
 Diff(m, p) ==
   IF DOMAIN m # DOMAIN p THEN <<"domain", (DOMAIN m) \ (DOMAIN p), (DOMAIN p) \ (DOMAIN m)>>
@@ -40,41 +40,63 @@ StateClauses == {"post", "create"}
 TwinClauses == {"twin-state", "twin-log", "twin-flag", "twin-payoffs", "twin-stacks", "twin-actions", "twin-cards", "twin-tokens",
                 "twin-unknown-kind", "copy-other-changed", "copy-digest-changed", "copy-diverged"}
 RuleClauses == {"rule", "microrule", "steprule"}
-Relevant(clause, op, names, kinds) ==
-  CASE P = "ALL" -> TRUE
-    [] P = "C01" -> \/ clause \in RuleClauses /\ names \cap RulesOf("C01") # {}
+RelBase(Q, clause, op, names, kinds) ==
+  CASE Q = "ALL" -> TRUE
+    [] Q = "C01" -> \/ clause \in RuleClauses /\ names \cap RulesOf("C01") # {}
                     \/ clause \in {"pots", "total-pot"}
                     \/ clause \in StateClauses /\ names \cap ChipF # {} /\ op \in ForcedOps
-    [] P = "C02" -> \/ clause \in RuleClauses /\ names \cap RulesOf("C02") # {}
+    [] Q = "C02" -> \/ clause \in RuleClauses /\ names \cap RulesOf("C02") # {}
                     \/ clause = "pots"
                     \/ clause \in StateClauses /\ "PUSH" \in kinds /\ names \cap (PotF \cup ChipF \cup {"log"}) # {}
-    [] P = "C03" -> \/ clause \in RuleClauses /\ names \cap RulesOf("C03") # {}
+    [] Q = "C03" -> \/ clause \in RuleClauses /\ names \cap RulesOf("C03") # {}
                     \/ clause \in {"probe", "verifier", "outcome", "refused-but-changed"} /\ op \in BetOps
                     \/ clause \in StateClauses /\ names \cap BetF # {}
                     \/ clause \in StateClauses /\ op \in BetOps /\ names \cap (ChipF \cup {"alive", "log", "allin"}) # {}
-    [] P = "C06" -> \/ clause \in RuleClauses /\ names \cap RulesOf("C06") # {}
+    [] Q = "C06" -> \/ clause \in RuleClauses /\ names \cap RulesOf("C06") # {}
                     \/ clause \in StateClauses /\ names \cap CardF # {}
-    [] P = "C07" -> \/ clause \in RuleClauses /\ names \cap RulesOf("C07") # {}
+    [] Q = "C07" -> \/ clause \in RuleClauses /\ names \cap RulesOf("C07") # {}
                     \/ clause \in {"outcome-other", "create-raised", "fault"}
                     \/ clause \in StateClauses /\ names \cap PhaseF # {}
-    [] P = "C08" -> clause \in {"probe", "probe-raised", "verifier", "query-changed-state", "outcome", "outcome-other", "refused-but-changed"}
-    [] P = "C10" -> \/ clause \in RuleClauses /\ names \cap RulesOf("C10") # {}
+    [] Q = "C08" -> clause \in {"probe", "probe-raised", "verifier", "query-changed-state", "outcome", "outcome-other", "refused-but-changed"}
+    [] Q = "C10" -> \/ clause \in RuleClauses /\ names \cap RulesOf("C10") # {}
                     \/ clause \in {"probe", "verifier", "outcome", "refused-but-changed"} /\ op \in DealOps
                     \/ clause \in StateClauses /\ names \cap (DealF \cup {"hole", "up", "board"}) # {}
                     \/ clause \in StateClauses /\ kinds \cap {"CB", "HD", "BD", "SD"} # {} /\ "log" \in names
-    [] P = "C12" -> \/ clause \in RuleClauses /\ names \cap RulesOf("C12") # {}
+    [] Q = "C12" -> \/ clause \in RuleClauses /\ names \cap RulesOf("C12") # {}
                     \/ clause \in TwinClauses
                     \/ clause \in {"probe", "verifier", "outcome", "refused-but-changed"} /\ op \in ShowOps
                     \/ clause \in StateClauses /\ kinds \cap {"SM", "HK"} # {}
                          /\ names \cap ({"log", "alive", "killPend", "showq", "hole", "up", "muck"} \cup ChipF) # {}
-    [] P = "C13" -> \/ clause \in RuleClauses /\ names \cap RulesOf("C13") # {}
+    [] Q = "C13" -> \/ clause \in RuleClauses /\ names \cap RulesOf("C13") # {}
                     \/ clause \in StateClauses /\ names \cap {"opener", "actors"} # {}
                     \/ clause \in StateClauses /\ "BI" \in kinds /\ "log" \in names
-    [] P = "C14" -> \/ clause \in RuleClauses /\ names \cap RulesOf("C14") # {}
+    [] Q = "C14" -> \/ clause \in RuleClauses /\ names \cap RulesOf("C14") # {}
                     \/ clause \in {"probe", "verifier", "outcome", "refused-but-changed"} /\ op = "select_runout_count"
                     \/ clause \in StateClauses /\ names \cap (RunF \cup {"board", "boardPend"}) # {}
-    [] P \in {"C09", "C15", "C16", "C17", "C20"} -> clause \in TwinClauses
+    [] Q \in {"C09", "C15", "C16", "C17", "C20"} -> clause \in TwinClauses
     [] OTHER -> TRUE
+RelevantFor(Q, clause, op, names, kinds) ==
+  IF Q = "C11" THEN \/ clause = "variant-config"
+                    \/ RelBase("C03", clause, op, names, kinds)
+                    \/ RelBase("C10", clause, op, names, kinds)
+                    \/ RelBase("C02", clause, op, names, kinds)
+  ELSE RelBase(Q, clause, op, names, kinds)
+Relevant(clause, op, names, kinds) == RelevantFor(P, clause, op, names, kinds)
+
+(***************************************************************************)
+(* Which configuration the model is instantiated with.  "impl": the one    *)
+(* read from the created State.  "spec": for a predefined variant the game *)
+(* part (streets, structure, hand types) is the specification's own record *)
+(* (Variants.tla), so a game wired differently from what its name says is  *)
+(* rejected at the first probe or step where the two differ (C11).         *)
+(***************************************************************************)
+CfgSrc == IF "CFGSRC" \in DOMAIN IOEnv THEN IOEnv.CFGSRC ELSE "impl"
+\* the deck is compared as a set of cards (STANDARD and REGULAR name the same 52 cards, listed in a different order)
+GamePart(c) == [streets |-> c.streets, structure |-> c.structure, types |-> c.types]
+CfgOf(H) ==
+  IF CfgSrc = "spec" /\ H.cfg.variant \in Names
+  THEN LET d == Def(H.cfg.variant, H.cfg.sb, H.cfg.bb) IN [H.cfg EXCEPT !.streets = d.streets, !.structure = d.structure, !.types = d.types]
+  ELSE H.cfg
 
 Report(t, k, clause, op, names, kinds, info) ==
   IF Relevant(clause, op, names, kinds) THEN PrintT(<<"MISMATCH", t, k, clause, op, names, info>>) ELSE TRUE
@@ -141,13 +163,17 @@ Force(b) == b = TRUE
 
 CreateOK(t, H) ==
   IF H.create.out = "ok"
-  THEN LET m == Create(H.cfg, H.deck0) IN
+  THEN LET m == Create(CfgOf(H), H.deck0) IN
        /\ ValidConfig(H.cfg) \/ Report(t, 0, "create-accepted-invalid", "create", {}, {}, <<>>)
+       /\ (H.cfg.variant \in Names =>
+              /\ GamePart(H.cfg) = GamePart(Def(H.cfg.variant, H.cfg.sb, H.cfg.bb))
+              /\ {H.cfg.deckcards[j] : j \in DOMAIN H.cfg.deckcards} = DeckCards(Def(H.cfg.variant, H.cfg.sb, H.cfg.bb).deck))
+             \/ Report(t, 0, "variant-config", "create", {}, {}, <<"spec", Def(H.cfg.variant, H.cfg.sb, H.cfg.bb), "code", GamePart(H.cfg)>>)
        /\ Core(m) = Core(H.create.post)
              \/ Report(t, 0, "create", "create", DiffFields(Core(m), Core(H.create.post)), Kinds(m.log) \cup Kinds(H.create.post.log),
                        Diff(Core(m), Core(H.create.post)))
-       /\ ObsOK(t, 0, "create", H.cfg, H.create.post)
-       /\ RulesOK(t, 0, "create", H.cfg, H.create.post)
-       /\ MicroOK(t, 0, "create", H.cfg, H.create)
+       /\ ObsOK(t, 0, "create", CfgOf(H), H.create.post)
+       /\ RulesOK(t, 0, "create", CfgOf(H), H.create.post)
+       /\ MicroOK(t, 0, "create", CfgOf(H), H.create)
   ELSE Report(t, 0, "create-raised", "create", {}, {}, H.create.out)
 =============================================================================
